@@ -577,6 +577,8 @@ class YP(object):
             pass
         finally:
             sys.setrecursionlimit(old_recursionlimit)
+            if hasattr(query, 'close'):
+                query.close()
         return result
 
     def match_dynamic(self, name, args):
